@@ -78,7 +78,7 @@ package imports
 
 // ---- C18: the import reader (read.go) ----
 // Ghost input (see /verif/specs/io.spec): gIn[0..gLen) is the input, gPos the read position.
-//@ property C18: isIdent, (*importReader).syntaxError, (*importReader).readByte, (*importReader).peekByte, (*importReader).nextByte, (*importReader).readKeyword, (*importReader).readIdent, (*importReader).readString, (*importReader).readImport, ReadImports, ReadComments
+//@ property C18: newImportReader, isIdent, (*importReader).syntaxError, (*importReader).readByte, (*importReader).peekByte, (*importReader).nextByte, (*importReader).readKeyword, (*importReader).readIdent, (*importReader).readString, (*importReader).readImport, ReadImports, ReadComments
 //@ bounded C18: TestVerifBoundedReadImports
 
 //@ extern (*bufio.Reader).ReadByte(b) (c, err)
@@ -88,7 +88,8 @@ package imports
 //@   ensures err == io.EOF ==> gPos == gLen
 
 // the buffer holds exactly the input bytes read so far
-//@ pure func bufIs(b []byte, in arr, pos int) bool = len(b) == pos && forall K {at(b,K)} :: lo(b) <= K && K < hi(b) ==> at(b,K) == in[K - lo(b)]
+// (gBase: number of input bytes skipped before the buffer starts: 0, or 3 for a byte-order mark)
+//@ pure func bufIsB(b []byte, in arr, pos int, base int) bool = len(b) == pos - base && forall K {at(b,K)} :: lo(b) <= K && K < hi(b) ==> at(b,K) == in[base + K - lo(b)]
 
 //@ pure func identByte(c int) bool = ('A' <= c && c <= 'Z') || ('a' <= c && c <= 'z') || ('0' <= c && c <= '9') || c == '_' || c >= 128
 //@ func isIdent
@@ -101,9 +102,9 @@ package imports
 //@   ensures r.err != nil && (old(r.err) != nil ==> r.err == old(r.err))
 
 //@ func (*importReader).readByte
-//@   requires r != nil && r.b != nil && bufIs(r.buf, gIn, gPos) && (r.eof ==> gPos == gLen)
+//@   requires r != nil && r.b != nil && bufIsB(r.buf, gIn, gPos, gBase) && (r.eof ==> gPos == gLen)
 //@   modifies F_S_imports_importReader_buf, F_S_imports_importReader_err, F_S_imports_importReader_eof, bytes, gPos
-//@   ensures bufIs(r.buf, gIn, gPos) && len(r.buf) >= old(len(r.buf)) && len(r.buf) <= old(len(r.buf)) + 1
+//@   ensures bufIsB(r.buf, gIn, gPos, gBase) && len(r.buf) >= old(len(r.buf)) && len(r.buf) <= old(len(r.buf)) + 1
 //@   ensures result != 0 ==> len(r.buf) >= 1 && r.buf[len(r.buf)-1] == result
 //@   ensures result == 0 ==> r.eof || r.err != nil
 //@   ensures (old(r.err) != nil ==> r.err == old(r.err)) && (old(r.eof) ==> r.eof)
@@ -117,10 +118,10 @@ package imports
 // byte of the buffer; 0 is returned only at end of input or after an error; the
 // explicit "import reader looping" panic is unreachable (nerr stays below its limit).
 //@ func (*importReader).peekByte
-//@   requires r != nil && r.b != nil && bufIs(r.buf, gIn, gPos) && peekOK(r.buf, r.peek) && (r.eof ==> gPos == gLen)
+//@   requires r != nil && r.b != nil && bufIsB(r.buf, gIn, gPos, gBase) && peekOK(r.buf, r.peek) && (r.eof ==> gPos == gLen)
 //@   requires r.err != nil ==> r.nerr < 10000
 //@   modifies F_S_imports_importReader_buf, F_S_imports_importReader_err, F_S_imports_importReader_eof, F_S_imports_importReader_peek, F_S_imports_importReader_nerr, bytes, gPos
-//@   loop 1: invariant bufIs(r.buf, gIn, gPos)
+//@   loop 1: invariant bufIsB(r.buf, gIn, gPos, gBase)
 //@   loop 1: invariant len(r.buf) >= old(len(r.buf))
 //@   loop 1: invariant (c != 0 ==> len(r.buf) >= 1 && r.buf[len(r.buf)-1] == c)
 //@   loop 1: invariant (c == 0 ==> r.eof || r.err != nil)
@@ -128,30 +129,30 @@ package imports
 //@   loop 1: invariant old(r.err) == nil
 //@   loop 1: invariant (old(r.eof) ==> r.eof)
 //@   loop 1: invariant (r.eof ==> gPos == gLen)
-//@   loop 2: invariant bufIs(r.buf, gIn, gPos)
+//@   loop 2: invariant bufIsB(r.buf, gIn, gPos, gBase)
 //@   loop 2: invariant len(r.buf) >= old(len(r.buf))
 //@   loop 2: invariant (c == 0 ==> r.eof || r.err != nil)
 //@   loop 2: invariant r.nerr == old(r.nerr)
 //@   loop 2: invariant old(r.err) == nil
 //@   loop 2: invariant (old(r.eof) ==> r.eof)
 //@   loop 2: invariant (r.eof ==> gPos == gLen)
-//@   loop 3: invariant bufIs(r.buf, gIn, gPos)
+//@   loop 3: invariant bufIsB(r.buf, gIn, gPos, gBase)
 //@   loop 3: invariant len(r.buf) >= old(len(r.buf))
 //@   loop 3: invariant r.nerr == old(r.nerr)
 //@   loop 3: invariant old(r.err) == nil
 //@   loop 3: invariant (old(r.eof) ==> r.eof)
 //@   loop 3: invariant (r.eof ==> gPos == gLen)
-//@   ensures bufIs(r.buf, gIn, gPos) && peekOK(r.buf, r.peek) && len(r.buf) >= old(len(r.buf))
+//@   ensures bufIsB(r.buf, gIn, gPos, gBase) && peekOK(r.buf, r.peek) && len(r.buf) >= old(len(r.buf))
 //@   ensures result == r.peek || (old(r.err) != nil && result == 0)
 //@   ensures r.err == nil && !r.eof ==> result != 0
 //@   ensures (old(r.err) != nil ==> r.err == old(r.err) && r.nerr == old(r.nerr) + 1 && result == 0) && (old(r.err) == nil ==> r.nerr == old(r.nerr)) && (old(r.eof) ==> r.eof)
 //@   ensures r.eof ==> gPos == gLen
 
 //@ func (*importReader).nextByte
-//@   requires r != nil && r.b != nil && bufIs(r.buf, gIn, gPos) && peekOK(r.buf, r.peek) && (r.eof ==> gPos == gLen)
+//@   requires r != nil && r.b != nil && bufIsB(r.buf, gIn, gPos, gBase) && peekOK(r.buf, r.peek) && (r.eof ==> gPos == gLen)
 //@   requires r.err != nil ==> r.nerr < 10000
 //@   modifies F_S_imports_importReader_buf, F_S_imports_importReader_err, F_S_imports_importReader_eof, F_S_imports_importReader_peek, F_S_imports_importReader_nerr, bytes, gPos
-//@   ensures bufIs(r.buf, gIn, gPos) && r.peek == 0 && len(r.buf) >= old(len(r.buf))
+//@   ensures bufIsB(r.buf, gIn, gPos, gBase) && r.peek == 0 && len(r.buf) >= old(len(r.buf))
 //@   ensures result != 0 ==> len(r.buf) >= 1 && r.buf[len(r.buf)-1] == result
 //@   ensures r.err == nil && !r.eof ==> result != 0
 //@   ensures (old(r.err) != nil ==> r.err == old(r.err) && r.nerr == old(r.nerr) + 1 && result == 0) && (old(r.err) == nil ==> r.nerr == old(r.nerr)) && (old(r.eof) ==> r.eof)
@@ -161,9 +162,9 @@ package imports
 // EOF are sticky, and they add at most K to nerr (and nothing while err == nil).
 
 //@ func (*importReader).readKeyword
-//@   requires r != nil && r.b != nil && bufIs(r.buf, gIn, gPos) && peekOK(r.buf, r.peek) && (r.eof ==> gPos == gLen) && r.nerr + len(kw) + 2 <= 10000
+//@   requires r != nil && r.b != nil && bufIsB(r.buf, gIn, gPos, gBase) && peekOK(r.buf, r.peek) && (r.eof ==> gPos == gLen) && r.nerr + len(kw) + 2 <= 10000
 //@   modifies F_S_imports_importReader_buf, F_S_imports_importReader_err, F_S_imports_importReader_eof, F_S_imports_importReader_peek, F_S_imports_importReader_nerr, bytes, gPos
-//@   loop 1: invariant bufIs(r.buf, gIn, gPos)
+//@   loop 1: invariant bufIsB(r.buf, gIn, gPos, gBase)
 //@   loop 1: invariant len(r.buf) >= old(len(r.buf))
 //@   loop 1: invariant (old(r.err) != nil ==> r.err == old(r.err))
 //@   loop 1: invariant (old(r.eof) ==> r.eof)
@@ -172,7 +173,7 @@ package imports
 //@   loop 1: invariant 0 <= rangeint && rangeint < len(kw)
 //@   loop 1: invariant peekOK(r.buf, r.peek)
 //@   loop 1: invariant r.nerr <= old(r.nerr) + 1 + rangeint
-//@   ensures bufIs(r.buf, gIn, gPos)
+//@   ensures bufIsB(r.buf, gIn, gPos, gBase)
 //@   ensures peekOK(r.buf, r.peek)
 //@   ensures len(r.buf) >= old(len(r.buf))
 //@   ensures r.nerr <= old(r.nerr) + len(kw) + 2
@@ -182,9 +183,9 @@ package imports
 //@   ensures r.eof ==> gPos == gLen
 
 //@ func (*importReader).readIdent
-//@   requires r != nil && r.b != nil && bufIs(r.buf, gIn, gPos) && peekOK(r.buf, r.peek) && (r.eof ==> gPos == gLen) && r.nerr + 2 <= 10000
+//@   requires r != nil && r.b != nil && bufIsB(r.buf, gIn, gPos, gBase) && peekOK(r.buf, r.peek) && (r.eof ==> gPos == gLen) && r.nerr + 2 <= 10000
 //@   modifies F_S_imports_importReader_buf, F_S_imports_importReader_err, F_S_imports_importReader_eof, F_S_imports_importReader_peek, F_S_imports_importReader_nerr, bytes, gPos
-//@   loop 1: invariant bufIs(r.buf, gIn, gPos)
+//@   loop 1: invariant bufIsB(r.buf, gIn, gPos, gBase)
 //@   loop 1: invariant len(r.buf) >= old(len(r.buf))
 //@   loop 1: invariant (old(r.err) != nil ==> r.err == old(r.err))
 //@   loop 1: invariant (old(r.eof) ==> r.eof)
@@ -192,7 +193,7 @@ package imports
 //@   loop 1: invariant (r.err == nil ==> r.nerr == old(r.nerr))
 //@   loop 1: invariant peekOK(r.buf, r.peek)
 //@   loop 1: invariant r.nerr == old(r.nerr)
-//@   ensures bufIs(r.buf, gIn, gPos)
+//@   ensures bufIsB(r.buf, gIn, gPos, gBase)
 //@   ensures peekOK(r.buf, r.peek)
 //@   ensures len(r.buf) >= old(len(r.buf))
 //@   ensures r.nerr <= old(r.nerr) + 2
@@ -203,9 +204,9 @@ package imports
 
 // readString: r.buf[start:] is always in bounds (start is the position of the opening quote).
 //@ func (*importReader).readString
-//@   requires r != nil && r.b != nil && bufIs(r.buf, gIn, gPos) && peekOK(r.buf, r.peek) && (r.eof ==> gPos == gLen) && r.nerr + 3 <= 10000
+//@   requires r != nil && r.b != nil && bufIsB(r.buf, gIn, gPos, gBase) && peekOK(r.buf, r.peek) && (r.eof ==> gPos == gLen) && r.nerr + 3 <= 10000
 //@   modifies F_S_imports_importReader_buf, F_S_imports_importReader_err, F_S_imports_importReader_eof, F_S_imports_importReader_peek, F_S_imports_importReader_nerr, bytes, gPos, C_Slice, H_Str
-//@   loop 1: invariant bufIs(r.buf, gIn, gPos)
+//@   loop 1: invariant bufIsB(r.buf, gIn, gPos, gBase)
 //@   loop 1: invariant len(r.buf) >= old(len(r.buf))
 //@   loop 1: invariant (old(r.err) != nil ==> r.err == old(r.err))
 //@   loop 1: invariant (old(r.eof) ==> r.eof)
@@ -214,7 +215,7 @@ package imports
 //@   loop 1: invariant 0 <= start && start < len(r.buf)
 //@   loop 1: invariant r.peek == 0
 //@   loop 1: invariant r.nerr <= old(r.nerr) + 1
-//@   loop 2: invariant bufIs(r.buf, gIn, gPos)
+//@   loop 2: invariant bufIsB(r.buf, gIn, gPos, gBase)
 //@   loop 2: invariant len(r.buf) >= old(len(r.buf))
 //@   loop 2: invariant (old(r.err) != nil ==> r.err == old(r.err))
 //@   loop 2: invariant (old(r.eof) ==> r.eof)
@@ -223,7 +224,7 @@ package imports
 //@   loop 2: invariant 0 <= start && start < len(r.buf)
 //@   loop 2: invariant r.peek == 0
 //@   loop 2: invariant r.nerr <= old(r.nerr) + 1
-//@   ensures bufIs(r.buf, gIn, gPos)
+//@   ensures bufIsB(r.buf, gIn, gPos, gBase)
 //@   ensures peekOK(r.buf, r.peek)
 //@   ensures len(r.buf) >= old(len(r.buf))
 //@   ensures r.nerr <= old(r.nerr) + 3
@@ -233,9 +234,9 @@ package imports
 //@   ensures r.eof ==> gPos == gLen
 
 //@ func (*importReader).readImport
-//@   requires r != nil && r.b != nil && bufIs(r.buf, gIn, gPos) && peekOK(r.buf, r.peek) && (r.eof ==> gPos == gLen) && r.nerr + 6 <= 10000
+//@   requires r != nil && r.b != nil && bufIsB(r.buf, gIn, gPos, gBase) && peekOK(r.buf, r.peek) && (r.eof ==> gPos == gLen) && r.nerr + 6 <= 10000
 //@   modifies F_S_imports_importReader_buf, F_S_imports_importReader_err, F_S_imports_importReader_eof, F_S_imports_importReader_peek, F_S_imports_importReader_nerr, bytes, gPos, C_Slice, H_Str
-//@   ensures bufIs(r.buf, gIn, gPos)
+//@   ensures bufIsB(r.buf, gIn, gPos, gBase)
 //@   ensures peekOK(r.buf, r.peek)
 //@   ensures len(r.buf) >= old(len(r.buf))
 //@   ensures r.nerr <= old(r.nerr) + 6
@@ -251,20 +252,39 @@ package imports
 // (syntax errors not requested) the whole input.
 //@ func ReadImports
 //@   names (data, err)
-//@   requires gPos == 0 && gLen >= 0
-//@   modifies bytes, gPos, C_Slice, H_Str, F_S_imports_importReader_*
-//@   loop 1: invariant r != nil && r.b != nil && bufIs(r.buf, gIn, gPos) && peekOK(r.buf, r.peek) && (r.eof ==> gPos == gLen)
+//@   requires gPos == 0 && gBase == 0 && gLen >= 0
+//@   modifies bytes, gPos, gBase, C_Slice, H_Str, F_S_imports_importReader_*
+//@   loop 1: invariant r != nil && r.b != nil && bufIsB(r.buf, gIn, gPos, gBase) && peekOK(r.buf, r.peek) && (r.eof ==> gPos == gLen)
 //@   loop 1: invariant r.nerr <= 60 && (r.err == nil ==> r.nerr == 0)
-//@   loop 2: invariant r != nil && r.b != nil && bufIs(r.buf, gIn, gPos) && peekOK(r.buf, r.peek) && (r.eof ==> gPos == gLen)
+//@   loop 2: invariant r != nil && r.b != nil && bufIsB(r.buf, gIn, gPos, gBase) && peekOK(r.buf, r.peek) && (r.eof ==> gPos == gLen)
 //@   loop 2: invariant r.nerr <= 40 && (r.err == nil ==> r.nerr == 0)
-//@   loop 3: invariant r != nil && r.b != nil && bufIs(r.buf, gIn, gPos) && (r.eof ==> gPos == gLen)
-//@   ensures forall K {at(data,K)} :: lo(data) <= K && K < hi(data) ==> at(data,K) == gIn[K - lo(data)]
-//@   ensures len(data) <= gPos
-//@   ensures err == nil ==> len(data) == gPos - 1 || len(data) == gLen
+//@   loop 3: invariant r != nil && r.b != nil && bufIsB(r.buf, gIn, gPos, gBase) && (r.eof ==> gPos == gLen)
+//@   ensures gBase == 0 || (gBase == 3 && gIn[0] == 239 && gIn[1] == 187 && gIn[2] == 191)
+//@   ensures forall K {at(data,K)} :: lo(data) <= K && K < hi(data) ==> at(data,K) == gIn[gBase + K - lo(data)]
+//@   ensures len(data) <= gPos - gBase
+//@   ensures err == nil ==> len(data) == gPos - gBase - 1 || len(data) == gLen - gBase
 
 //@ func ReadComments
 //@   names (data, err)
-//@   requires gPos == 0 && gLen >= 0
-//@   modifies bytes, gPos, F_S_imports_importReader_*
-//@   ensures forall K {at(data,K)} :: lo(data) <= K && K < hi(data) ==> at(data,K) == gIn[K - lo(data)]
-//@   ensures len(data) <= gPos
+//@   requires gPos == 0 && gBase == 0 && gLen >= 0
+//@   modifies bytes, gPos, gBase, F_S_imports_importReader_*
+//@   ensures forall K {at(data,K)} :: lo(data) <= K && K < hi(data) ==> at(data,K) == gIn[gBase + K - lo(data)]
+//@   ensures len(data) <= gPos - gBase
+
+// Peek / Discard on the ghost input
+//@ extern (*bufio.Reader).Peek(b, n) (data, err)
+//@   modifies new bytes
+//@   ensures err == nil ==> len(data) == n && gPos + n <= gLen && forall K {at(data,K)} :: lo(data) <= K && K < hi(data) ==> at(data,K) == gIn[gPos + K - lo(data)]
+//@ extern (*bufio.Reader).Discard(b, n) (discarded, err)
+//@   modifies gPos, gBase
+//@   ensures old(gPos) + n <= gLen ==> gPos == old(gPos) + n && (old(gPos) == old(gBase) ==> gBase == old(gBase) + n)
+//@   ensures !(old(gPos) + n <= gLen) ==> gPos == old(gPos) && gBase == old(gBase)
+
+// a fresh reader whose buffer starts after an optional byte-order mark
+//@ func newImportReader
+//@   requires gPos == 0 && gBase == 0 && gLen >= 0
+//@   at call (*bufio.Reader).Peek#1: hint err == nil ==> at(data, lo(data)) == gIn[0] && at(data, lo(data)+1) == gIn[1] && at(data, lo(data)+2) == gIn[2]
+//@   at call bytes.Equal#1: hint r ==> at(a, lo(a)) == at(b, lo(b)) && at(a, lo(a)+1) == at(b, lo(b)+1) && at(a, lo(a)+2) == at(b, lo(b)+2)
+//@   modifies bytes, gPos, gBase, F_S_imports_importReader_*
+//@   ensures result != nil && fresh(result) && result.b != nil && result.err == nil && !result.eof && result.peek == 0 && result.nerr == 0 && len(result.buf) == 0
+//@   ensures gPos == gBase && (gBase == 0 || (gBase == 3 && gIn[0] == 239 && gIn[1] == 187 && gIn[2] == 191))
